@@ -11,11 +11,17 @@ for f in logs:
         if not m or '950e81511c0f' in l: continue
         name, pid, st, rest = m.groups()
         res[(name, pid)] = ('reported, failing input found' if st == 'VIOLATION' and 'no-failing-input-found' not in rest else 'reported (no-failing-input-found)' if st == 'VIOLATION' else 'silent')
+# only the checks a seeded change is registered for (seeded/<id>/meta.json 'checks'); a check dropped from that list
+# (with the reason in 'needs') no longer has a row
+reg = {}
+for d in glob.glob(os.path.join(VERIF, 'seeded', '*', 'meta.json')):
+    m = json.load(open(d)); reg['s_' + m['id']] = set(m['checks'])
+res = {k: v for k, v in res.items() if k[0] not in reg or k[1] in reg[k[0]]}
 out = ['# Which check reports which change (quick tier, seed 1)', '',
        'Changes are applied to scratch copies of /repo by `tools/mutants.py` (never to /repo). `mNN_*` = the single-edit mutants named in properties.jsonl (exact edits in doc/ACCEPTANCE-MUTANTS.md); `s_*` = changes written by fresh sub-agents that saw only the property text and a scratch worktree of /repo (seeded/<id>/: patch.diff, demo.cpp, notes.txt, meta.json), each confirmed (suite passes with it, demo fails with it and passes without).', '',
        '| change | check | result |', '|---|---|---|']
 for (name, pid), v in sorted(res.items()): out.append('| %s | %s | %s |' % (name, pid, v))
-out += ['', '`m34_dot_host` is property-equivalent (only the error code changes; `is_unc_path` rejects a "." host anyway): silence is correct.']
+out += ['', '`s_c14_r4_static_scratch_buffer` (a static scratch string in check_fix_utf8) was written against C14 but leaves single-threaded behaviour unchanged for every input; it is registered for, and reported by, C19.', '', '`m34_dot_host` is property-equivalent (only the error code changes; `is_unc_path` rejects a "." host anyway): silence is correct.']
 open(os.path.join(VERIF, 'seeded', 'RESULTS.md'), 'w').write('\n'.join(out) + '\n')
 for d in glob.glob(os.path.join(VERIF, 'seeded', '*', 'meta.json')):
     m = json.load(open(d)); n = 's_' + m['id']
